@@ -485,6 +485,23 @@ Fixpoint overlap_free (ls : list link) : bool :=
       && overlap_free ls'
   end.
 
+(* ---------------------------------------------------------------- links that were NOT applied
+   apply_parsing_links skips a link whose class-valued source is absent ("source not found in namespace": the chosen
+   class does not take that parameter); the target then keeps whatever the user / the defaults supplied, yet
+   strip_link_target_keys drops it from dumps all the same (finding skipped-link-target-stripped). *)
+Definition tgt_present (cfg : val) (a : alink) : bool :=
+  has cfg (al_tgt a)
+  || match al_kind a with
+     | TgtInit d c => match get cfg d with
+                      | Some (VList items) => existsb (fun i => has i c) items
+                      | _ => false
+                      end
+     | TgtPlain => false
+     end.
+
+Definition skipped_target_present (ls : list alink) (cfg : val) : bool :=
+  existsb (fun a => match mapM (get cfg) (al_src a) with None => tgt_present cfg a | Some _ => false end) ls.
+
 (* ---------------------------------------------------------------- repaired behaviour (fixes/C15-*.patch)
    fixes/C15-link-key-prefix-overlap.patch: _initial_input_checks additionally rejects (ValueError) a link whose
    target is equal to, inside or above (a) the target of an earlier link, (b) a source of an earlier link,
